@@ -1,11 +1,17 @@
 ---------------------------- MODULE MC_ChecksGen ----------------------------
 EXTENDS ChecksGen
 Slots4 == {"s1", "s2", "s3", "s4"}
+Slots6 == {"s1", "s2", "s3", "s4", "s5", "s6"}
 Slots3 == {"s1", "s2", "s3"}
 RsaClasses == {"healthy", "healthy3072", "small", "exponent", "fermat", "sharedA", "sharedB", "copy1", "prime", "even", "square", "three"}
 RsaDegClasses == {"healthy", "prime", "even", "square", "pow2", "oddlen", "bits64", "bits65", "three", "huge_e", "empty_e", "copy1", "small"}
 EcClasses == {"healthy", "healthy384", "weakcurve", "weakprivate", "closeA", "closeB", "offcurve", "unknowncurve", "binarycurve", "copy1"}
 EcDegClasses == {"healthy", "offcurve", "zero", "coordp", "xplusp", "huge", "y0", "unknowncurve", "binarycurve", "copy1", "weakcurve", "curve25"}
 EcdsaDegClasses == {"healthyA", "invalidissuer", "unknowncurve", "copy1", "emptyhash", "hash64", "rs_edge", "healthy521", "brainpool", "samexy"}
+EcdsaSoundClasses == {"healthyA", "healthyB", "msbA", "msb384", "msbweak", "msbneg", "healthy384", "copy1"}
+EcSoundClasses == {"healthy", "healthy384", "weakprivate", "closeA", "closeB", "copy1", "weakcurve"}
+RsaHealthyClasses == {"healthy", "healthy3072", "healthy4096", "fermat", "sharedA", "sharedB", "small"}
+EcHealthyClasses == {"healthy", "healthy384", "healthy224", "healthy521", "healthyk1", "healthybp256", "healthybp384", "healthybp512", "weakprivate", "offcurve"}
+EcdsaHealthyClasses == {"healthyA", "healthyB", "healthy384", "healthy521", "msbA", "invalidissuer"}
 EcdsaClasses == {"healthyA", "healthyB", "msbA", "invalidissuer", "unknowncurve", "copy1", "healthy384", "samexy"}
 =============================================================================
